@@ -45,7 +45,7 @@ class _Ctx:
     break_to: list[int] = field(default_factory=list)
     continue_to: list[int] = field(default_factory=list)
     handlers: list[list[int]] = field(default_factory=list)  # stack of handler-entry node ids
-    finallies: list[ast.Try] = field(default_factory=list)
+    finallies: list[list[int]] = field(default_factory=list)  # per enclosing try/finally: the `return` nodes that leave through it
 
 
 class CFG:
@@ -168,6 +168,8 @@ class CFG:
             hentries = []
             for h in st.handlers:
                 hentries.append(self._new("handler", h, st))
+            if st.finalbody:
+                ctx.finallies.append([])
             ctx.handlers.append(hentries)
             first_mark = len(self.nodes)
             body_tails = self._block(st.body, tails, ctx)
@@ -184,9 +186,17 @@ class CFG:
             for h, he in zip(st.handlers, hentries):
                 out += self._block(h.body, [(he, None)], ctx)
             if st.finalbody:
-                # finally is executed on the normal path; (exceptional paths through finally are
-                # approximated by also linking handler-less raises: not needed by the rules)
-                out = self._block(st.finalbody, out, ctx)
+                # finally is executed on the normal path and by every `return` of the body / handlers (one shared copy
+                # of the final body: its tails continue after the try and, when a return came through, also leave the
+                # function -- an over-approximation of the paths).  Exceptional paths through finally are not modelled.
+                leaving = ctx.finallies.pop()
+                out = self._block(st.finalbody, out + [(r, None) for r in leaving], ctx)
+                if leaving:
+                    if ctx.finallies:
+                        ctx.finallies[-1].extend(t for t, _ in out)
+                    else:
+                        for t, lab in out:
+                            self._edge(t, self.exit, lab)
             return out
         if isinstance(st, ast.Match):
             m = self._new("match", st.subject, st)
@@ -218,7 +228,10 @@ class CFG:
         self._connect(tails, n)
         if isinstance(st, ast.Return):
             self._maybe_exc(n, ctx)
-            self._edge(n, self.exit)
+            if ctx.finallies:
+                ctx.finallies[-1].append(n)
+            else:
+                self._edge(n, self.exit)
             return []
         if isinstance(st, ast.Raise):
             for tgt in self._raise_targets(ctx):
